@@ -20,7 +20,7 @@ def pieces(sid, k, n, first_table=None):
         return {2: [f"CREATE TABLE t{s} (a{s} int,", f"b{s} varchar(5))"],
                 3: [f"CREATE TABLE t{s} (", f"a{s} int, b{s} varchar(5)", ")"]}[n]
     if k == "serde":
-        rx = SERDE_RX[sid % len(SERDE_RX)]
+        rx = SERDE_RX[(first_table or 0) % len(SERDE_RX)]      # the SAME regex in every serde table of a script, another one per script shape
         return {1: [f"CREATE TABLE t{s} (a{s} int, b{s} varchar(5)) ROW FORMAT SERDE 'org.apache.hadoop.hive.serde2.RegexSerDe' "
                     f'WITH SERDEPROPERTIES ("input.regex" = "{rx}") STORED AS TEXTFILE;']}[n]
     if k == "alter_rn":
